@@ -66,8 +66,8 @@ type Mutation struct {
 
 // NewMutation returns a new Mutation for stashing changes.
 func NewMutation(d Downreser, v dvid.VersionID, mutID uint64) *Mutation {
-	for scale := uint8(1); scale <= d.GetMaxDownresLevel(); scale++ {
-		d.StartScaleUpdate(scale)
+	for s := 1; s <= int(d.GetMaxDownresLevel()); s++ { // counted in int: a uint8 never exceeds 255
+		d.StartScaleUpdate(uint8(s))
 	}
 	m := Mutation{
 		d:          d,
@@ -112,8 +112,8 @@ func (m *Mutation) Execute() error {
 		bm, err = m.d.StoreDownres(m.v, scale, bm)
 		if err != nil {
 			// release the scales that will not be computed so the data doesn't stay "updating" forever.
-			for s := scale + 1; s <= m.d.GetMaxDownresLevel(); s++ {
-				m.d.StopScaleUpdate(s)
+			for s := int(scale) + 1; s <= int(m.d.GetMaxDownresLevel()); s++ {
+				m.d.StopScaleUpdate(uint8(s))
 			}
 			return fmt.Errorf("mutation %d for data %q: %v", m.mutID, m.d.DataName(), err)
 		}
@@ -136,7 +136,7 @@ func (m *Mutation) Abort() {
 		return
 	}
 	m.hiresCache = nil
-	for scale := uint8(1); scale <= m.d.GetMaxDownresLevel(); scale++ {
-		m.d.StopScaleUpdate(scale)
+	for s := 1; s <= int(m.d.GetMaxDownresLevel()); s++ {
+		m.d.StopScaleUpdate(uint8(s))
 	}
 }
